@@ -262,11 +262,13 @@ class Env:
         self.crashed = False
         self.cur_op = None
         self.reflink_supported = None   # None: nondeterministic (both kinds of filesystem are explored)
+        self.n_effects_step = 0         # successful mutations since the current API call began
+        self.op_seq = 0
 
     def act(self, kind, path=None, path2=None, mutating=False, data=None, **kw):
         """Called at every filesystem operation.  Returns None or the name of an injected error kind."""
         rec = {"i": self.n_actions, "kind": kind, "path": path, "path2": path2, "mutating": mutating,
-               "pid": self.pid, "op": self.cur_op}
+               "pid": self.pid, "op": self.cur_op, "op_seq": self.op_seq}
         if data is not None:
             rec["data"] = data
         rec.update(kw)
@@ -279,6 +281,14 @@ class Env:
         if self.fault is not None:
             return self.fault.inject(self, rec)
         return None
+
+    def effect(self, kind):
+        self.n_effects_step += 1
+
+    def begin_op(self, name):
+        self.cur_op = name
+        self.op_seq += 1
+        self.n_effects_step = 0
 
     def intern_digest(self, algo, content):
         c = sb.canon(sb.concretise_atoms(content), self.w)
@@ -309,6 +319,68 @@ class Env:
             self.w.assume(z3.UGE(t, self.clock_terms[-1]))
         self.clock_terms.append(t)
         return t
+
+
+class CrashController:
+    """kill -9 at any point of the armed operation: before any filesystem action, or in the middle of a
+    data write after a symbolic number of bytes.  Nothing of the process runs afterwards."""
+
+    def __init__(self, torn=True):
+        self.armed = False
+        self.torn = torn
+        self.fired = None        # description of the crash point
+
+    def before(self, env, rec):
+        if not self.armed or self.fired:
+            return
+        if env.w.choose(2, "crash-before:%s" % rec["kind"]) == 1:
+            self.fired = {"effects": env.n_effects_step, "kind": rec["kind"], "path": rec.get("path"), "torn": None, "action": rec["i"]}
+            raise ProcessCrash("killed before %s" % rec["kind"])
+
+    def maybe_torn(self, I, f, data):
+        """Called by op_write after the 'before' decision: the write itself may be cut short by the kill."""
+        env = I.env
+        if not self.armed or self.fired or not self.torn:
+            return
+        if env.w.choose(2, "crash-torn-write") == 1:
+            n = data.length()
+            t = env.w.fresh_bv("torn", 64)
+            env.w.assume(z3.ULT(t, bv(n, 64)))      # t == n is the 'crash before the next action' case
+            part = sb.slice_(data, 0, t, env.w)
+            do_write(I, f, part)
+            self.fired = {"effects": env.n_effects_step, "kind": "write", "path": f.path, "torn": t, "action": env.n_actions - 1}
+            raise ProcessCrash("killed inside write after a torn prefix")
+
+
+class FaultController:
+    """Exactly one filesystem operation of the armed API call fails with an errno class."""
+    KINDS = ["Other", "StorageFull", "PermissionDenied", "Uncategorized"]      # EIO, ENOSPC, EACCES, EMFILE
+
+    def __init__(self, kinds=None, short_write=True):
+        self.armed = False
+        self.fired = None
+        self.kinds = kinds or self.KINDS
+        self.short_write = short_write
+
+    def inject(self, env, rec):
+        if not self.armed or self.fired:
+            return None
+        if rec["kind"] in ("lstat", "stat") and rec.get("via") in ("reflink-diagnose",):
+            return None
+        if env.w.choose(2, "fault@%s" % rec["kind"]) == 0:
+            return None
+        k = env.w.choose(len(self.kinds), "fault-kind")
+        occ = sum(1 for r in env.trace[:-1] if r.get("op_seq") == env.op_seq and r["kind"] == rec["kind"] and _pkey(r.get("path")) == _pkey(rec.get("path")))
+        self.fired = {"kind": rec["kind"], "path": rec.get("path"), "errno": self.kinds[k], "occurrence": occ, "action": rec["i"]}
+        if rec["kind"] == "write" and self.short_write and rec.get("data") is not None and rec.get("fobj") is not None:
+            if env.w.choose(2, "fault-short-write") == 1:
+                self.fired["short"] = True
+                return "ShortWrite:" + self.kinds[k]
+        return self.kinds[k]
+
+
+def _pkey(p):
+    return p.key() if isinstance(p, SBytes) else p
 
 
 def wrap(I, fn):
@@ -344,6 +416,7 @@ def op_mkdir_p(I, path):
                 d = Inode("dir")
                 node.children[sb.concretise_atoms(c).key()] = (c, d)
                 ent = (c, d)
+                env.effect("mkdir")
         child = ent[1]
         if child.kind == "symlink":
             child = env.vfs.lookup(path_from(True, comps[:k + 1]))
@@ -360,6 +433,7 @@ def op_mkdir(I, path):
     if ino is not None:
         raise FsErr("AlreadyExists")
     parent.children[comp_key(name)] = (name, Inode("dir"))
+    env.effect("mkdir")
     return UNIT
 
 
@@ -384,6 +458,7 @@ def op_open(I, path, read=False, write=False, append=False, create=False, trunca
         ino = Inode("file")
         ino.tag = ("created-by-open", env.pid)
         parent.children[comp_key(name)] = (name, ino)
+        env.effect("create")
     else:
         if create_new:
             raise FsErr("AlreadyExists")
@@ -391,6 +466,7 @@ def op_open(I, path, read=False, write=False, append=False, create=False, trunca
             raise FsErr("IsADirectory")
         if truncate and ino.kind == "file":
             ino.sb = SBytes()
+            env.effect("truncate")
     f = FileObj(ino, path, read=read, write=write or append, append=append)
     return f
 
@@ -468,13 +544,22 @@ def op_write(I, f, data):
     n = data.length()
     inj = env.act("write", f.path, mutating=True, data=data, append=f.append, fobj=f)
     if inj:
-        if inj == "ShortWrite":
-            # a short write followed by failure of the retry is modelled by the fault controller
-            raise FsErr("StorageFull", injected=True)
+        if inj.startswith("ShortWrite:"):
+            # a short write (symbolic prefix reaches the file) whose retry then fails
+            t = env.w.fresh_bv("short", 64)
+            env.w.assume(z3.UGE(t, 1))
+            env.w.assume(z3.ULT(t, bv(n, 64)))
+            if env.w.feasible():
+                do_write(I, f, sb.slice_(data, 0, t, env.w))
+                env.effect("write")
+            raise FsErr(inj.split(":", 1)[1], injected=True)
         raise FsErr(inj, injected=True)
     if not f.write:
         raise FsErr("Uncategorized")
+    if env.crash is not None:
+        env.crash.maybe_torn(I, f, data)
     do_write(I, f, data)
+    env.effect("write")
     return n
 
 
@@ -519,6 +604,7 @@ def op_unlink(I, path):
         raise FsErr("IsADirectory")
     del parent.children[comp_key(name)]
     ino.nlink -= 1
+    env.effect("unlink")
     return UNIT
 
 
@@ -543,6 +629,7 @@ def op_rename(I, src, dst, noclobber=False):
         dino.nlink -= 1
     del sp.children[comp_key(sn)]
     dp.children[comp_key(dn)] = (dn, sino)
+    env.effect("rename")
     return UNIT
 
 
@@ -559,6 +646,7 @@ def op_link(I, src, dst):
         raise FsErr("NotFound")
     dp.children[comp_key(dn)] = (dn, sino)
     sino.nlink += 1
+    env.effect("link")
     return UNIT
 
 
@@ -571,6 +659,7 @@ def op_symlink(I, target, linkpath):
     if dp is None:
         raise FsErr("NotFound")
     dp.children[comp_key(dn)] = (dn, Inode("symlink", target=target))
+    env.effect("symlink")
     return UNIT
 
 
@@ -595,17 +684,21 @@ def op_copy(I, src, dst):
             raise FsErr("NotFound")
         dino = Inode("file")
         dp.children[comp_key(dn)] = (dn, dino)
+        env.effect("create")
     elif dino.kind == "dir":
         raise FsErr("IsADirectory")
     else:
         if dino is sino:
             # copying a file onto itself truncates it first
             dino.sb = SBytes()
+            env.effect("truncate")
             return 0
         dino.sb = SBytes()
+        env.effect("truncate")
     data = sino.sb
     fail_if_injected(env.act("write", dst, mutating=True, data=data, via="copy"))
     dino.sb = data
+    env.effect("write")
     return data.length()
 
 
@@ -670,7 +763,9 @@ def op_remove_dir_all(I, path):
             else:
                 fail_if_injected(env.act("unlink", cp, mutating=True))
                 node.children.pop(comp_key(nm), None)
+                env.effect("unlink")
         fail_if_injected(env.act("rmdir", p, mutating=True))
+        env.effect("rmdir")
     rec(path, ino)
     if parent is not None:
         parent.children.pop(comp_key(name), None)
@@ -986,6 +1081,7 @@ def _file_set_len(I, a, d):
     def go():
         fail_if_injected(I.env.act("ftruncate", f.path, mutating=True))
         set_len(I, f.inode, n)
+        I.env.effect("ftruncate")
         return UNIT
     return wrap(I, go)
 
@@ -1220,6 +1316,7 @@ def _posix_fallocate(I, a, d):
         grow = ln > cur
     if grow:
         f.inode.sb = f.inode.sb + SBytes((sb.Fill(0, I._sub(ln, cur)),))
+    I.env.effect("fallocate")
     return 0
 
 
@@ -1240,6 +1337,22 @@ def _bufreader_new(I, a, d):
 def utf8_check(I, line):
     """Is this SBytes valid UTF-8?  bool (forks on symbolic bytes through the solver)."""
     segs = line.segs
+    if any(isinstance(s, sb.CutSeg) for s in segs):
+        # concrete text with one symbolic cut: validity is a condition on the cut point
+        pre = b""
+        for i, s_ in enumerate(segs):
+            if isinstance(s_, bytes):
+                pre += s_
+            elif isinstance(s_, sb.CutSeg) and i == len(segs) - 1:
+                def valid(b, pre=pre):
+                    try:
+                        (pre + b).decode("utf-8")
+                        return True
+                    except UnicodeDecodeError:
+                        return False
+                return I.w.branch(sb.cut_cond(s_, valid), "utf8-cut")
+            else:
+                raise Inconclusive("utf8 validity of %r" % (s_,))
     if all(isinstance(s, (bytes, sb.Atom)) for s in segs):
         # atoms are valid UTF-8 text by axiom; concrete runs between them must be valid on their own
         buf = b""
@@ -1329,9 +1442,9 @@ def utf8_check(I, line):
 
 def lines_of(I, content):
     """std::io::BufRead::lines semantics over a whole byte string -> list of Ok(String)/Err(InvalidData)."""
-    from .core import decide_symbytes
+    from .core import decide_symbytes, split_with_cuts
     content = decide_symbytes(I, content, [0x0A])
-    parts = split_sbytes(content, 0x0A)
+    parts = split_with_cuts(I, content, 0x0A)
     # a trailing newline does not produce a final empty line
     if parts and not parts[-1].segs:
         parts = parts[:-1]
@@ -1345,6 +1458,9 @@ def lines_of(I, content):
                     p = SBytes(p.segs[:-1])
             elif isinstance(last, bytes) and last.endswith(b"\r"):
                 p = SBytes(p.segs[:-1] + (last[:-1],))
+            elif isinstance(last, sb.CutSeg):
+                if I.w.branch(sb.cut_cond(last, lambda b: b.endswith(b"\r")), "line-cr-cut"):
+                    p = SBytes(p.segs[:-1] + (sb.CutSeg(last.data, last.lo, I._sub(last.hi, 1)),))
         if utf8_check(I, p):
             out.append(OK(mk_string(p)))
         else:
